@@ -1,8 +1,9 @@
 #!/bin/bash
 # usage: seed_confirm.sh <prop> <src-dir with patch.diff demo_test.go README.md> <seed-id> [demo-subdir]
 # Confirms a seeded change in a scratch worktree (builds, full suite passes, demo fails with / passes without), runs the
-# property's checks against it, and stores it under /verif/seeded/<seed-id>/ with meta.json.
+# property's checks against it, and stores it under $VROOT/seeded/<seed-id>/ with meta.json.
 set -u
+VROOT=$(cd "$(dirname "$0")" && pwd)
 P=$1; SRC=$2; ID=$3; SUB=${4:-.}
 export GOFLAGS=-mod=mod GOPROXY=off GOSUMDB=off GOTOOLCHAIN=local
 WT=$(mktemp -d /tmp/seedwt_XXXXXX); rmdir $WT
@@ -13,8 +14,8 @@ cd $WT
 applyp() { git apply $SRC/patch.diff 2>/dev/null || patch -p1 -s -F3 --no-backup-if-mismatch < $SRC/patch.diff >/dev/null 2>&1; }
 if ! applyp || ! go build ./... >/dev/null 2>&1; then
   # the code the change touched was repaired since: keep the files, mark the seed
-  mkdir -p /verif/seeded/$ID; cp -n $SRC/patch.diff $SRC/demo_test.go $SRC/README.md /verif/seeded/$ID/ 2>/dev/null
-  python3 - /verif/seeded/$ID/meta.json "$P" "$ID" <<'PY'
+  mkdir -p $VROOT/seeded/$ID; cp -n $SRC/patch.diff $SRC/demo_test.go $SRC/README.md $VROOT/seeded/$ID/ 2>/dev/null
+  python3 - $VROOT/seeded/$ID/meta.json "$P" "$ID" <<'PY'
 import json,sys
 p,prop,i=sys.argv[1:]
 try: m=json.load(open(p))
@@ -37,7 +38,7 @@ DEMO_WITHOUT=$(cd $SUB && go test -count=1 -run . . 2>&1 | tail -1 | cut -c1-60)
 rm -f $SUB/zz_demo_test.go
 applyp
 git checkout -q go.mod 2>/dev/null
-cd /verif
+cd "$VROOT"
 QUICK=$(VERIF_EVIDENCE_DIR=/tmp/verif_scratch_evidence VERIF_REPLAY_DIR=/tmp/verif_scratch_replays VERIF_REPO=$WT ./check $P quick 2>&1 | tail -4)
 # "concrete" = a VIOLATION line with a failing input; "tie-only" = only `no-failing-input-found`
 # (note: when a proof obligation such as a source pin breaks, the quick command already runs the thorough generators)
@@ -49,14 +50,14 @@ if [ "$KQ" != concrete ]; then
   KT=$(kind "$THOR")
   if [ "$KT" = concrete ]; then CAUGHT="thorough:concrete"; elif [ "$KQ" = tie-only ] || [ "$KT" = tie-only ]; then CAUGHT="tie-only"; else CAUGHT=missed; fi
 fi
-mkdir -p /verif/seeded/$ID
-cp $SRC/patch.diff $SRC/demo_test.go /verif/seeded/$ID/; cp $SRC/README.md /verif/seeded/$ID/README.md 2>/dev/null
+mkdir -p $VROOT/seeded/$ID
+cp $SRC/patch.diff $SRC/demo_test.go $VROOT/seeded/$ID/; cp $SRC/README.md $VROOT/seeded/$ID/README.md 2>/dev/null
 python3 - "$P" "$ID" "$BUILD" "$SUITE" "$SUITEFAIL" "$DEMO_WITH" "$DEMO_WITHOUT" "$CAUGHT" "$QUICK" "$THOR" "$SUB" <<'PY'
 import json,sys
 p,i,build,suite,sfail,dw,dwo,caught,quick,thor,sub=sys.argv[1:]
 meta={"property":p,"id":i,"build":build,"suite_packages_ok":int(suite),"suite_failures":int(sfail),"demo_dir":sub,
  "demo_with_change":dw,"demo_without_change":dwo,"caught_by":caught,"check_quick_tail":quick.split("\n"),"check_thorough_tail":thor.split("\n") if thor else [],
  "ran":["git apply patch.diff","go build ./...","go test -count=1 ./...","demo test with and without the change","VERIF_REPO=<worktree> ./check %s quick|thorough"%p]}
-json.dump(meta,open('/verif/seeded/%s/meta.json'%i,'w'),indent=1)
+json.dump(meta,open('$VROOT/seeded/%s/meta.json'%i,'w'),indent=1)
 print("RESULT %s: build=%s suite_ok=%s suite_fail=%s demo_with=[%s] demo_without=[%s] caught=%s"%(i,build,suite,sfail,dw,dwo,caught))
 PY
